@@ -316,13 +316,16 @@ theorem nameLoop_ens (fuel : Nat) (inp acc orig : List Nat) (hf : inp.length < f
     unfold nameLoop
     split
     · simp
-    · rename_i c rest h
-      have hl := nameChar_ssuf h
+    · rename_i c0 rest0
       split
-      · exact hl.1.trans hi
+      · exact (suf_cons _ (suf_refl _)).trans hi
       · split
-        · exact ih rest _ (by have := hl.2; omega) (hl.1.trans hi)
         · simp
+        · rename_i c rest h
+          have hl := nameChar_ssuf h
+          split
+          · exact ih rest _ (by have := hl.2; omega) (hl.1.trans hi)
+          · simp
 
 theorem tryConsumeName_ens (inp : List Nat) :
     Ens (tryConsumeName inp) (fun p => p.2 <:+ inp) := by
